@@ -377,6 +377,7 @@ func init() {
 		Streams: []Stream{
 			{Name: "grid", Setup: c17Setup, N: c17GridN, Run: c17Grid, Exhaustive: true},
 			{Name: "joins", N: func(c *Ctx) int { return joinN() }, Run: joinIdentity, Exhaustive: true},
+			{Name: "per-element-reentry", N: reN, Run: reRun("C17"), Exhaustive: true},
 			{Name: "heavy", N: heavyN, Run: heavyRun("C17"), Exhaustive: true},
 			{Name: "many-elements", N: func(c *Ctx) int { return 9 }, Run: manyIdentity, Exhaustive: true},
 			{Name: "random", N: func(c *Ctx) int { return tierN(c, 30000, 6000000) }, Run: c17Random},
